@@ -683,9 +683,12 @@ def load(ins,fmap,nbytes,sign):
         return
     if ins.mode == "Bit-reverse":
         src = ins.operands[1]
-        index = A[ins.b+1][0:16].zeroextend(src.size)
-        incr = fmap(A[ins.b+1][16:32])
-        fmap[dst] = fmap(mem(src+index,sz)).extend(sign,dst.size)
+        # index and increment are read once, through the map:
+        _Abp1 = fmap(A[ins.b+1])
+        index = _Abp1[0:16].zeroextend(src.size)
+        incr = _Abp1[16:32]
+        _ea = fmap(src)+index
+        fmap[dst] = fmap[mem(_ea,sz)].extend(sign,dst.size)
         new_index = reverse16(reverse16(index[0:16])+reverse16(incr))
         fmap[A[ins.b+1]] = composer([new_index,incr])
         return
